@@ -3093,3 +3093,176 @@ C13_PAIRWISE = dict(
     raises=[("should be filtered before using this method", 6)],
 )
 ALL += [C13_PAIRWISE]
+
+# ---- C20: models/main.py ModelEvaluation.save_h5 / load_h5 (vocabulary: last part of Model/Metrics.v; proofs Proofs/C20SourceIO.v) ----
+# The HDF5 file is `evraw`: its datasets by name, in creation order.  Trusted per entry, ONE h5py call / attribute read each:
+#   h5py.File(fn, "w") = a new empty file;  h5py.File(fn, "r") = what the file holds (the parameter h5)
+#   f.create_dataset(NAME, data=d, compression="gzip")  appends (NAME, d) to the datasets; an existing NAME raises
+#   f[NAME][:]                                          the stored array (KeyError when absent, tag 32 for another kind)
+#   self.predictions / .observations / .chain_ids / .sample_names   run the translated properties; the 2-d predictions array is
+#       the stored rows with shape[1] = the parameter ncols (as in C20_EV_INIT / C20_EV_INTER_CHAIN)
+#   encode_string_array / decode_string_array (batchie.data) are translated themselves (C20_EVIO_CODEC); inside them
+#       arr.size == 0, np.empty(arr.shape, dtype=...) (= arr where it has no element), np.char.encode / decode (the identity on
+#       the strings of an array WITH elements; numpy answers an array without elements with a float64 array: an error)
+#   cls(predictions=, observations=, chain_ids=, sample_names=)   a fresh instance initialised by the translated __init__
+# NAME is matched literally per dataset: an unknown name has no primitive and stops the build.  str arrays (`list pyname`)
+# and bytes arrays (`list bstr`) are different type names, so a missing codec call is refused.
+_C20_IO = dict(file="src/batchie/models/main.py", cls="ModelEvaluation", out="SrcEvalIO.v",
+               imports="Model.Metrics Generated.SrcMetrics", overload=True)
+_EVIO_KINDS = [("predictions", "EV_F2", "evraw_read_f2", "mat2"), ("observations", "EV_F1", "evraw_read_f1", _QS),
+               ("chain_ids", "EV_I1", "evraw_read_i1", _ZS), ("sample_names", "EV_S1", "evraw_read_s1", "list bstr")]
+
+
+def _evio_codec(func, src_t, dst_t, call, empty):
+    """the module-level helper `func` of data.py on a 1-d array: the `arr.size == 0` guard, np.empty, np.char.<codec>"""
+    return dict(file="src/batchie/data.py", out="SrcEvalIO.v", imports="Model.Metrics Generated.SrcMetrics",
+                func=func, name="src_ev_" + func, pyparams=["arr"], params=[("arr", src_t)], returns=dst_t, vars={},
+                prims=[("arr.size == 0", "ev_arr_empty arr'", "bool"),
+                       (empty, "!ev_empty_like arr'", dst_t),
+                       (call, "!ev_char_codec arr'", dst_t)])
+
+
+C20_EVIO_CODEC = [_evio_codec("encode_string_array", "list pyname", "list bstr", "np.char.encode(arr)", "np.empty(arr.shape, dtype='S1')"),
+                  _evio_codec("decode_string_array", "list bstr", "list pyname", "np.char.decode(arr, 'utf-8')", "np.empty(arr.shape, dtype=str)")]
+# the property ModelEvaluation.sample_names (`return self._sample_names`)
+C20_EV_SAMPLE_NAMES = dict(_C20_EV, func="sample_names", name="src_ev_sample_names", returns="list list Z", fields=_EV_FIELDS4,
+                           out="SrcEvalIO.v", imports="Model.Metrics Generated.SrcMetrics")
+C20_EVIO_SAVE = dict(
+    _C20_IO, func="save_h5", name="src_ev_save_h5", pyparams=["self", "fn"],
+    params=[("ncols", "nat"), ("self", "evaluation")], returns="evraw",       # returns what has been written to `fn`
+    vars={"f": "evraw"},
+    contexts=[("h5py.File(fn, 'w')", "evraw_empty", "evraw")],
+    prims=[("self.predictions", "!(dor p__ <- src_ev_predictions self'; Ok (as_mat2 ncols p__))", "mat2"),
+           ("self.observations", "!src_ev_observations self'", _QS),
+           ("self.chain_ids", "!src_ev_chain_ids self'", _ZS),
+           ("self.sample_names", "!src_ev_sample_names self'", "list pyname"),
+           ("encode_string_array(__a)", "!src_ev_encode_string_array {a}", "list bstr", {"a": "list pyname"})],
+    effects=[("f.create_dataset('%s', data=__d, compression='gzip')" % n, "f'", "!evraw_create {state} EK_%s (%s {d})" % (n, k))
+             for n, k, _, _ in _EVIO_KINDS],
+    implicit_return="{f}",
+)
+C20_EVIO_LOAD = dict(
+    _C20_IO, func="load_h5", name="src_ev_load_h5", pyparams=["cls", "fn"],
+    params=[("h5", "evraw")], returns="evaluation",       # h5 = what the file at `fn` holds
+    vars={"f": "evraw", "predictions": "mat2", "observations": _QS, "chain_ids": _ZS, "sample_names": "list pyname"},
+    contexts=[("h5py.File(fn, 'r')", "h5", "evraw")], with_return=True,
+    prims=[("__f['%s'][:]" % n, "!%s {f} EK_%s" % (r, n), t, {"f": "evraw"}) for n, _, r, t in _EVIO_KINDS]
+          + [("decode_string_array(__a)", "!src_ev_decode_string_array {a}", "list pyname", {"a": "list bstr"})],
+    kwcalls={"cls": ("!src_ev_init ev_blank (fst {predictions}) (snd {predictions}) {observations} {chain_ids} {sample_names}", "evaluation",
+                     [("predictions", "mat2", None), ("observations", _QS, None), ("chain_ids", _ZS, None),
+                      ("sample_names", "list pyname", None)])},
+)
+ALL += C20_EVIO_CODEC + [C20_EV_SAMPLE_NAMES, C20_EVIO_SAVE, C20_EVIO_LOAD]
+
+# ---- C06: ChunkedScoresHolder.__init__ / get_score / save_h5 / load_h5 (vocabulary: last part of Model/Scores.v; proofs
+# Proofs/C06SourceIO.v).  The object is `pyholder` (its four attributes; typed fields), a float score its order key `skey`,
+# the HDF5 file `shraw` (datasets and attributes by name).  Trusted per entry, ONE numpy / h5py call each:
+#   np.zeros(n, dtype=FloatingPointType / int)      n zeros (the key of 0.0 is 0), ValueError for a negative n
+#   a == v                                          elementwise;   a[mask]  boolean-mask selection (IndexError on another length)
+#   a.item()                                        the only element of an array of size 1, else ValueError
+#   h5py.File(fn, "w") = a new empty file;  h5py.File(fn, "r") = what the file holds (the parameter h5)
+#   f.create_dataset(NAME, data=d)                  appends (NAME, d); an existing NAME raises
+#   f.attrs[NAME] = v / f.attrs[NAME]               set / read an attribute (KeyError when absent)
+#   f[NAME][:]                                      the stored array (KeyError when absent, tag 32 for another kind)
+#   len(a);  cls(n) = a fresh instance initialised by the translated __init__
+_PH = "pyholder"
+_C06_IO = dict(
+    file="src/batchie/scoring/main.py", cls="ChunkedScoresHolder", out="SrcHolderIO.v", imports="Model.Scores", overload=True,
+    fields={"size": (_PH, "Z", "ph_size {obj}", "set_ph_size {obj} {val}"),
+            "scores": (_PH, "list skey", "ph_scores {obj}", "set_ph_scores {obj} {val}"),
+            "plate_ids": (_PH, "list Z", "ph_pids {obj}", "set_ph_pids {obj} {val}"),
+            "current_index": (_PH, "Z", "ph_cur {obj}", "set_ph_cur {obj} {val}")},
+)
+C06_HOLDER_INIT = dict(
+    _C06_IO, func="__init__", name="src_holder_init", pyparams=["self", "size"],
+    params=[("self", _PH), ("size", "Z")], returns=_PH, vars={},
+    prims=[("np.zeros(__n, dtype=FloatingPointType)", "!np_zeros_keys {n}", "list skey", {"n": "Z"}),
+           ("np.zeros(__n, dtype=int)", "!np_zeros_keys {n}", "list Z", {"n": "Z"})],
+    implicit_return="{self}",
+)
+C06_HOLDER_GET_SCORE = dict(
+    _C06_IO, func="get_score", name="src_holder_get_score", pyparams=["self", "plate_id"],
+    params=[("self", _PH), ("plate_id", "Z")], returns="skey", vars={},
+    prims=[("__a == __v", "np_eq_scalar_z {a} {v}", "list bool", {"a": "list Z", "v": "Z"}),
+           ("__a[__m]", "!mask_select {a} {m}", "list skey", {"a": "list skey", "m": "list bool"}),
+           ("__a.item()", "!array_only {a}", "skey", {"a": "list skey"})],
+)
+C06_HOLDER_SAVE = dict(
+    _C06_IO, func="save_h5", name="src_holder_save_h5", pyparams=["self", "fn"],
+    params=[("self", _PH)], returns="shraw", vars={"f": "shraw"},       # returns what has been written to `fn`
+    contexts=[("h5py.File(fn, 'w')", "shraw_empty", "shraw")],
+    typed_effects=[("f.create_dataset('scores', data=__d)", "f'", "!shraw_create {state} SK_scores (SH_F1 {d})", {"d": "list skey"}),
+                   ("f.create_dataset('plate_ids', data=__d)", "f'", "!shraw_create {state} SK_plate_ids (SH_I1 {d})", {"d": "list Z"})],
+    assign_effects=[("f.attrs['current_index'] = __v", "f'", "shraw_set_attr {state} SK_current_index {v}")],
+    implicit_return="{f}",
+)
+C06_HOLDER_LOAD = dict(
+    _C06_IO, func="load_h5", name="src_holder_load_h5", pyparams=["cls", "fn"],
+    params=[("h5", "shraw")], returns=_PH,                                # h5 = what the file at `fn` holds
+    vars={"f": "shraw", "scores": "list skey", "plate_ids": "list Z", "current_index": "Z", "scores_holder": _PH},
+    contexts=[("h5py.File(fn, 'r')", "h5", "shraw")],
+    prims=[("__f['scores'][:]", "!shraw_read_f1 {f} SK_scores", "list skey", {"f": "shraw"}),
+           ("__f['plate_ids'][:]", "!shraw_read_i1 {f} SK_plate_ids", "list Z", {"f": "shraw"}),
+           ("__f.attrs['current_index']", "!shraw_attr {f} SK_current_index", "Z", {"f": "shraw"}),
+           ("len(__a)", "Z.of_nat (length {a})", "Z", {"a": "list skey"}),
+           ("cls(__n)", "!src_holder_init ph_blank {n}", _PH, {"n": "Z"})],
+)
+ALL += [C06_HOLDER_INIT, C06_HOLDER_GET_SCORE, C06_HOLDER_SAVE, C06_HOLDER_LOAD]
+
+# ---- C20: models/main.py correlation_matrix, and predict_viability_avg once more with NaN as a VALUE (vocabulary: last part
+# of Model/Corr.v; proofs Proofs/C20SourceCorr.v).  A float is `nq` = option Qc (None = NaN); every numpy operator is lifted
+# (a NaN operand gives NaN); x / 0 with x != 0 (inf) is the unmodelled tag 96.  2-d arrays are lists of rows (`list nvec`),
+# a keepdims row is `nvec`, a keepdims column `ncol`.  The screen is (tm, sm, arity) as in C20_SPACE plus `rows` = the
+# (sample id, sample name key) pairs of its experiments; the thetas are the function f (theta index, sample id, treatment
+# ids) -> prediction of the model (Corr.v Section Corr), nthetas their number.
+_NV, _NM = "nvec", "list nvec"
+C20_PREDICT_AVG_NAN = dict(
+    file="src/batchie/models/main.py", func="predict_viability_avg", out="SrcCorr.v", overload=True,
+    imports="Lib.Num Model.Metrics Model.Synergy Model.Corr Generated.SrcSpace",
+    name="src_predict_viability_avg_nan", pyparams=["screen", "thetas"], params=[("size", "nat"), ("per_theta", "list theta_n")],
+    returns=_NV, vars={"result": _NV, "theta_index": "Z", "theta": "theta_n", "sub_result": _NV},
+    prims=[
+        ("screen.size", "Z.of_nat size", "Z"),
+        ("np.zeros((__n,), dtype=FloatingPointType)", "nv_zeros {n}", _NV, {"n": "Z"}),
+        ("thetas.n_thetas", "Z.of_nat (length per_theta)", "Z"),
+        ("thetas.get_theta(__i)", "!list_get per_theta {i}", "theta_n", {"i": "Z"}),       # the i-th theta (C10: get_theta)
+        ("__t.predict_viability(screen)", "{t}", _NV, {"t": "theta_n"}),
+        ("np.isnan(__x)", "nv_isnan {x}", _BS, {"x": _NV}),
+        ("__m.any()", "np_any1 {m}", "bool", {"m": _BS}),
+        ("__a + __b", "!nv_add {a} {b}", _NV, {"a": _NV, "b": _NV}),
+        ("__v / __n", "!nv_div_int {v} {n}", _NV, {"v": _NV, "n": "Z"}),
+    ],
+    raises=[("NaN predictions were created", 1)],
+)
+C20_CORR = dict(
+    file="src/batchie/models/main.py", func="correlation_matrix", out="SrcCorr.v", overload=True,
+    imports="Lib.Num Model.Metrics Model.Synergy Model.Corr Generated.SrcSpace",
+    name="src_correlation_matrix", pyparams=["screen", "thetas"],
+    params=[("orc", "oracle"), ("f", "nat -> Z -> list Z -> Qcanon.Qc"), ("tm", "tmap3"), ("sm", _PAIRS), ("arity", "nat"),
+            ("nthetas", "nat"), ("rows", _PAIRS)],
+    returns="corr_frame",
+    vars={"predictions": _NM, "index": _ZS, "id_to_name": "dict", "sample_id": "Z", "combinatoric_space": "(list Z * list list Z)",
+          "mu": _NV, "X": _NM, "X_": _NM, "corr": _NM},
+    prims=[
+        ("screen.sample_ids", "map fst rows", _ZS), ("screen.sample_names", "map snd rows", _ZS),
+        ("screen.unique_sample_ids", "sorted_unique (map fst rows)", _ZS),          # np.unique(self.sample_ids)
+        ("zip(__a, __b)", "combine {a} {b}", _PAIRS, {"a": _ZS, "b": _ZS}),
+        ("dict(__p)", "dict_of_pairs {p}", "dict", {"p": _PAIRS}),
+        ("__d[__k]", "!dict_read {d} {k}", "Z", {"d": "dict", "k": "Z"}),
+        # the callees run their translations; Screen.size of the space = the number of its sample ids
+        ("generate_full_combinatoric_space(__s, screen)", "!src_generate_full_combinatoric_space tm sm arity {s}",
+         "(list Z * list list Z)", {"s": "Z"}),
+        ("predict_viability_avg(__s, thetas)", "!src_predict_viability_avg_nan (length (fst {s})) (thetas_on f nthetas {s})", _NV,
+         {"s": "(list Z * list list Z)"}),
+        ("np.stack(__l)", "!nm_stack {l}", _NM, {"l": _NM}),
+        ("np.mean(__p, axis=0, keepdims=True)", "!nm_mean0 {p}", _NV, {"p": _NM}),
+        ("__p - __m", "!nm_sub_row {p} {m}", _NM, {"p": _NM, "m": _NV}),
+        ("np.square(__x)", "nm_square {x}", _NM, {"x": _NM}),
+        ("np.sum(__x, axis=1, keepdims=True)", "nm_sum1 {x}", "ncol", {"x": _NM}),
+        ("np.sqrt(__c)", "nc_sqrt orc {c}", "ncol", {"c": "ncol"}),
+        ("__x / __c", "!nm_div_col {x} {c}", _NM, {"x": _NM, "c": "ncol"}),
+        ("np.einsum('ik, jk->ij', __a, __b)", "!nm_einsum_ik_jk {a} {b}", _NM, {"a": _NM, "b": _NM}),
+        ("pandas.DataFrame(__c, index=__i, columns=__j)", "mk_frame {c} {i} {j}", "corr_frame", {"c": _NM, "i": _ZS, "j": _ZS}),
+    ],
+)
+ALL += [C20_PREDICT_AVG_NAN, C20_CORR]
